@@ -6,6 +6,7 @@ import LarkVerif.LexModel
 import LarkVerif.LexTiling
 import LarkVerif.LexFast
 import LarkVerif.EarleyExec
+import LarkVerif.EarleyExpected
 import LarkVerif.LRCheck
 import LarkVerif.LRError
 import LarkVerif.LRComplete
@@ -190,12 +191,18 @@ def runEarley (j : Json) : Except String Json := do
     Json.arr ((items.mergeSort (fun a b => a ≤ b)).map natArr).toArray
   -- expected terminals per column: items whose next symbol is a terminal
   let exp := (List.range (n+1)).map fun i =>
-    let ts := (c.filter (fun x => x.col = i)).filterMap fun x => match x.rule.rhs[x.dot]? with
+    let ts := (c.filter (fun x => x.col = i)).filterMap fun x => match x.rule.rhs[x.dot]? with      -- = `expectedAt G L start i` (Props.C08.earley_expected_exact)
       | some (Sym.t a) => some a
       | _ => none
     natArr (ts.mergeSort (fun a b => a ≤ b)).eraseDups
+  -- optional productivity certificate: an ordering of rule indices
+  let prod ← match j.getObjVal? "order" with
+    | .ok o => do
+      let idxs ← natListOf o
+      pure (Json.bool (productiveB G (idxs.filterMap fun k => rules[k]?)))
+    | .error _ => pure Json.null
   let wf := edges.all (fun e => e.2.1 < e.2.2 && e.2.2 ≤ n) && igns.all (fun e => e.1 < e.2 && e.2 ≤ n)
-  pure (Json.mkObj [("accept", Json.bool acc), ("cols", Json.arr cols.toArray), ("expected", Json.arr exp.toArray), ("wf", Json.bool wf)])
+  pure (Json.mkObj [("accept", Json.bool acc), ("cols", Json.arr cols.toArray), ("expected", Json.arr exp.toArray), ("wf", Json.bool wf), ("productive", prod)])
 
 open LALRTable in
 def candOf (j : Json) : Except String Cand := do
